@@ -351,7 +351,7 @@ class Report:
                 if t is None:
                     return False, 'ASN.1 key "%s": inserted type unknown' % k_
                 tys.add(t)
-            elif o.kind == 'call' and re.search(r'slice::<impl \[T\]>::get$|Option::<T>::ok_or$', o.call.callee):
+            elif o.kind == 'call' and re.search(r'slice::<impl \[T\]>::(get|first|last)$|Option::<T>::(ok_or|ok_or_else)$', o.call.callee):
                 # element of SequenceOf.inner: the factory closure's boxed type
                 t = self.asn1_factory_type(body)
                 if t is None:
